@@ -57,6 +57,7 @@ typedef struct { int64_t ttlTickDuration; size_t ttlTicksPerWheel; size_t ttlNum
 #define KVStoreConfig_DEFAULT ((KVStoreConfig){1000, 256, 4})
 IORA_SMAP1(iora_kvmap, iora_vec, iora_vec_DEFAULT)
 IORA_SMAP1(iora_expmap, ExpiryEntry, ExpiryEntry_DEFAULT)
+IORA_SMAP1_ITER(iora_expmap, ExpiryEntry)
 IORA_SMAP1(iora_cachemap, CacheEntry, CacheEntry_DEFAULT)
 typedef struct { iora_gfile *_logPath; iora_kvmap _kv; iora_expmap _expiry; iora_cachemap _cache; int _mutex; int _cacheMutex; iora_ms _ttlWheelMaxRange; } KVStore;
 
@@ -93,3 +94,20 @@ int G_step;
   __CPROVER_assigns(i, range, iora_exc, G_q0, G_a0, G_b0, G_divs) \
   __CPROVER_loop_invariant(i <= (*cfg).ttlNumWheels && range > 0 && range <= kMaxTtlRangeMs && iora_exc == EXC_NONE) \
   __CPROVER_decreases((*cfg).ttlNumWheels - i))
+
+/* loop of dropExpiredAfterLoad (iteration over _expiry with erase): for the ghost key's entry -
+ *   still present  => it is the original entry, value untouched, and if already visited its expiry is in the future;
+ *   gone           => it was present, its expiry had passed, and the key was removed from _kv as well;
+ *   never present  => the key's value is untouched.                                                         variant: entries left */
+#define KV_DROP_H0 (__CPROVER_loop_entry(self->_expiry.has))
+#define KV_DROP_E0 (__CPROVER_loop_entry(self->_expiry.val.expiry))
+#define KV_DROP_K0 (__CPROVER_loop_entry(self->_kv.has))
+#define IORA_LOOP_KVStore_dropExpiredAfterLoad_1 IORA_LC( \
+  __CPROVER_assigns(it, self->_kv, self->_expiry) \
+  __CPROVER_loop_invariant(it.map == &self->_expiry && it.i <= self->_expiry.n && (self->_expiry.has ==> self->_expiry.gpos < self->_expiry.n)) \
+  __CPROVER_loop_invariant(self->_kv.val.p == __CPROVER_loop_entry(self->_kv.val.p) && self->_kv.val.n == __CPROVER_loop_entry(self->_kv.val.n)) \
+  __CPROVER_loop_invariant(self->_expiry.has ==> (KV_DROP_H0 && self->_expiry.val.expiry == KV_DROP_E0 && self->_kv.has == KV_DROP_K0)) \
+  __CPROVER_loop_invariant((self->_expiry.has && self->_expiry.gpos < it.i) ==> KV_DROP_E0 > now) \
+  __CPROVER_loop_invariant((!self->_expiry.has && KV_DROP_H0) ==> (KV_DROP_E0 <= now && !self->_kv.has)) \
+  __CPROVER_loop_invariant(!KV_DROP_H0 ==> (!self->_expiry.has && self->_kv.has == KV_DROP_K0)) \
+  __CPROVER_decreases(self->_expiry.n - it.i))
